@@ -17,7 +17,7 @@ from ..flow import Flow
 
 COL = "typhon/collocations/collocator.py"
 FILESET = "typhon/files/fileset.py"
-EXPECT = {"C05.drain": 3, "C05.flush": 4, "C05.crash": 1, "C05.split": 4, "C05.pairing": 2, "C05.naming": 3}
+EXPECT = {"C05.drain": 3, "C05.flush": 4, "C05.crash": 1, "C05.split": 4, "C05.pairing": 2, "C05.naming": 3, "C05.unique_name": 1}
 
 
 def rule_drain(ctx):
@@ -140,6 +140,29 @@ def rule_crash(ctx):
             and seq.index("results.put[ProcessCrashed]") < seq.index("raise") and seq.index("errors.put") < seq.index("raise") \
             and (h.type is None or "Exception" in norm(h.type))
     ctx.ob("Collocator._process_caller.crash", ok, "handler: %s" % fact, "results.put([.., ProcessCrashed]) and errors.put(...) before `raise`", node=tr[0] if tr else f.node, func=f)
+
+
+def rule_unique_name(ctx):
+    """Every result written in one run needs a file of its own.  The name is a function of the time span of the collocations (and of the
+    fill attributes): two results with the same span - two secondaries matched by one short primary file under bundle=None - collide
+    unless equal names are merged, numbered, or appended to."""
+    ctx.rule("C05.unique_name", "T2", "two results of one run are never written under the same file name")
+    f = ctx.func(COL, "Collocator._save_and_return")
+    gf = calls_in(f.node, "get_filename")
+    wr = calls_in(f.node, "write")
+    if not gf or not wr:
+        raise AnalysisError("_save_and_return: get_filename / write not found")
+    txt = ast.unparse(f.node)
+    guarded = any(k_ in txt for k_ in ("isfile(", "exists(", "glob(")) or "mode=" in ast.unparse(wr[0]) and "'a'" in ast.unparse(wr[0])
+    pc = ctx.func(COL, "Collocator._process_caller")
+    per_match = len(calls_in(pc.node, "_save_and_return")) >= 2          # one call per match (no bundle) besides the bundle flushes
+    merged = "_merge_same_name" in ast.unparse(pc.node) or "same_name" in ast.unparse(pc.node)
+    ok = guarded or merged or not per_match
+    ctx.ob("Collocator._save_and_return.unique_name", ok, "name = %s; existing file checked / merged: %s" % (str(norm(gf[0]))[:90], guarded or merged),
+           "results that map to one file name are merged (or the name is made unique) before output.write: with bundle=None every (primary file, secondary file) match is "
+           "written on its own, and two matches of one primary file with the same time span overwrite each other", node=wr[0], func=f,
+           witness=None if ok else {"primary file": "one point at 01:00:00", "secondary files": "00:00-00:59 and 01:00-01:59, two partners each",
+                                   "memory output": "4 collocations in 2 datasets", "file output": "1 file with 2 collocations"})
 
 
 def rule_split(ctx):
@@ -298,7 +321,7 @@ def rule_naming(ctx):
 
 
 def run(ctx):
-    for r in (rule_drain, rule_flush, rule_crash, rule_split, rule_pairing, rule_naming):
+    for r in (rule_drain, rule_flush, rule_crash, rule_split, rule_pairing, rule_naming, rule_unique_name):
         ctx.attempt(r, ctx)
     from .C03 import rule_match
     from .C10 import rule_align
